@@ -281,6 +281,7 @@ def c17(tier, repo=None, only_cases=None):
             c["shape"] = ""
             if c["graph"] and rnd.random() < (0.6 if c["mode"] == "stream" else 0.2):
                 c["shape"] = ("branch", "fanout", "callback")[rnd.randrange(3)]
+        c.setdefault("mfail", rnd.random() < 0.6)    # utils-built failing tools fail in their custom output encoder
         c.setdefault("eofwrap", rnd.random() < 0.5)  # a stream failing in the middle fails with an error that wraps io.EOF
         if "deep" not in c:
             # panicking tools panic from a deep recursion in a fraction of the cases: the long unwinding widens the window between
